@@ -69,13 +69,16 @@ IsiPadded(s) == [e \in 1..Len(s.out) |-> PadTo(s.out[e], IsiWidth(s.ras))]
 (* ip / ipx                                                                *)
 (***************************************************************************)
 SVals == IF Signed THEN Vals \cup {0 - v : v \in Vals} ELSE Vals
-IpInit == {[m |-> "ip", i |-> p[1], x |-> p[2], sample |-> sv, prev |-> pv, next |-> nv, t |-> t, stage |-> 0,
-            b0 |-> 0, b1 |-> 0, val |-> 0] :
-              p \in Pairs, sv \in SVals, pv \in SVals, nv \in SVals, t \in 0..DT}
+\* every matching pair, and for the kernels with an optional `adjust` argument every non-identity
+\* adjustment as well
+IpInit == UNION {{[m |-> "ip", i |-> p[1], x |-> p[2], adj |-> f, sample |-> sv, prev |-> pv, next |-> nv, t |-> t, stage |-> 0,
+                   b0 |-> 0, b1 |-> 0, val |-> 0] :
+                     sv \in SVals, pv \in SVals, nv \in SVals, t \in 0..DT,
+                     f \in (IF TakesAdjust(p[2]) THEN Adjusts ELSE {"id"})} : p \in Pairs}
 IpFinal(s) == s.stage = 2 \/ ~ExtrapDefined(s.x, s.t, DT)
 IpNext(s) ==
   IF s.stage = 0
-  THEN LET b == Extrap(s.x, s.sample, s.t, s.prev, s.next, DT) IN [s EXCEPT !.stage = 1, !.b0 = b[1], !.b1 = b[2]]
+  THEN LET b == Extrap(s.x, s.sample, s.t, s.prev, s.next, DT, s.adj) IN [s EXCEPT !.stage = 1, !.b0 = b[1], !.b1 = b[2]]
   ELSE [s EXCEPT !.stage = 2, !.val = Interp(s.i, s.b0, s.b1, s.t, DT)]
 
 IpxInit == {[m |-> "ipx", t |-> t, stage |-> 0, sample |-> [c |-> 1, x |-> 0],
@@ -139,10 +142,14 @@ IsiReintegrates == IsiDone => \A e \in 1..Len(st.ras) : Reintegrates(st.ras[e], 
 IpDone == st.m = "ip" /\ st.stage = 2
 \* the constants keep all arithmetic exact (otherwise \div would hide a remainder)
 IpExact == (st.m = "ip" /\ ExtrapDefined(st.x, st.t, DT)) =>
-   /\ ExactArgs(st.x, st.sample, st.t, st.prev, st.next, DT)
+   /\ ExactArgs(st.x, st.sample, st.t, st.prev, st.next, DT, st.adj)
    /\ (st.stage >= 1 /\ st.i = "linear" => ExactInterp(st.b0, st.b1, st.t, DT))
 \* interpolating at the time a sample was extrapolated from returns the sample
 IpRoundTrip == IpDone => st.val = st.sample
+\* the adjusted observation is the bracket value the extrapolated line is anchored on
+IpAdjustAnchors == (st.m = "ip" /\ st.stage >= 1) =>
+   /\ (st.x = "linear_forward" => st.b0 = Adj(st.adj, st.prev))
+   /\ (st.x = "linear_backward" => st.b1 = Adj(st.adj, st.next))
 \* the same clause including the end points where the documented formula divides by zero
 IpDefinedEverywhere == st.m = "ip" => ExtrapDefined(st.x, st.t, DT)
 \* linear interpolation stays between the bracket values and meets them at the ends
@@ -166,7 +173,7 @@ Emit ==
     CASE st.m = "vp" -> PrintT(ToJson([vp |-> [a |-> st.a, b |-> st.b, q2 |-> st.q2, d2 |-> VpDist2(st)]]))
       [] st.m = "isi" -> PrintT(ToJson([isi |-> [ras |-> st.ras, width |-> IsiWidth(st.ras), rows |-> IsiAbs(st.ras)]]))
       [] st.m = "ip" -> IF st.stage = 2
-                        THEN PrintT(ToJson([ip |-> [i |-> st.i, x |-> st.x, sample |-> st.sample, prev |-> st.prev,
+                        THEN PrintT(ToJson([ip |-> [i |-> st.i, x |-> st.x, adj |-> st.adj, sample |-> st.sample, prev |-> st.prev,
                                                     next |-> st.next, t |-> st.t, b0 |-> st.b0, b1 |-> st.b1, val |-> st.val]]))
                         ELSE TRUE
       [] st.m = "ipx" -> PrintT(ToJson([ipx |-> [t |-> st.t, x0 |-> st.b0.x, x1 |-> st.b1.x, xv |-> st.val.x]]))
